@@ -1125,6 +1125,10 @@ class ServiceInstance:
         if self._task is None:  # pragma: nocover
             raise RuntimeError("task already stopped")
 
+        # from here on no FindService may be answered any more, neither by matches_find() nor
+        # by an answer that was delayed before the stop
+        self._can_answer_offers = False
+
         self._task.cancel()
         asyncio.create_task(wait_cancelled(self._task))
         self._task = None
@@ -1180,6 +1184,13 @@ class ServiceInstance:
             self.timings.ANNOUNCE_TTL if not stop else 0
         )
         self.announcer.queue_send(entry, remote=remote)
+
+    def _answer_find(self, remote: _T_SOCKADDR) -> None:
+        # the answer may have been delayed (call_soon / call_later): the instance could have
+        # been stopped in the meantime
+        if not self._can_answer_offers:
+            return
+        self._send_offer(remote)
 
     def matches_find(
         self, entry: someip.header.SOMEIPSDEntry, addr: _T_SOCKADDR
@@ -1388,7 +1399,7 @@ class ServiceAnnouncer:
                 asyncio.get_event_loop().call_soon(func, addr)
 
         for instance in matching_instances:
-            call(instance._send_offer)
+            call(instance._answer_find)
 
     def start(self, loop=None):
         for instance in self.announcing_services:
